@@ -203,11 +203,28 @@ def run(c):
     mr = re.search(r'<<\s*"ROUNDTRIPS",\s*"(.*?)"\s*>>', r0.out, re.S)
     prods = json.loads(mp.group(1).replace('\\"', '"'))
     rts = json.loads(mr.group(1).replace('\\"', '"'))
+    extra = {}
+    for tag in ("QUANTITIES", "CROSS", "RATIOS", "SCALINGS"):
+        mx = re.search(r'<<\s*"%s",\s*"(.*?)"\s*>>' % tag, r0.out, re.S)
+        if not mx:
+            raise vlib.Inconclusive("UnitLaws printed no table %s:\n" % tag + r0.out[-1500:])
+        extra[tag] = json.loads(mx.group(1).replace('\\"', '"'))
     uin, uout = os.path.join(rd, "units.txt"), os.path.join(rd, "units.ndjson")
     open(uin, "w").write("".join("%s|%s|%d|%d\n" % tuple(x) for x in rel) +
                          "".join("P|%s|%s\n" % (x[0], "|".join("%s|%d" % tuple(y) for y in x[1:])) for x in prods) +
-                         "".join("R|%s|%d|%d\n" % tuple(x) for x in rts))
+                         "".join("R|%s|%d|%d\n" % tuple(x) for x in rts) +
+                         "".join("Q|%s|%s|%s|%d|%d\n" % tuple(x) for x in extra["QUANTITIES"]) +
+                         "".join("X|%s|%s|%d|%d\n" % tuple(x) for x in extra["CROSS"]) +
+                         "".join("T|%s|%s|%s|%s|%d|%d\n" % tuple(x) for x in extra["RATIOS"]) +
+                         "".join("S|%s|%s|%d|%d\n" % tuple(x) for x in extra["SCALINGS"]))
     rel = rel + [[x[0], "product of its parts", 1, 0] for x in prods] + [[x[0], "itself after SI and back", 1, 0] for x in rts]
+    for x in extra["QUANTITIES"]:
+        rel += [["%s in %s" % (x[0], x[1]), "the SI unit of the quantity", 1, 0],
+                ["%s: %d x 10^%d %s through to_SI / to_unit" % (x[0], x[3], x[4], x[2]), "itself", 1, 0],
+                ["%s: to_SI of %s" % (x[0], x[2]), "convert to the SI unit name", 1, 0]]
+    rel += [["%d x 10^%d %s" % (x[2], x[3], x[0]), "itself after conversion to %s and back" % x[1], 1, 0] for x in extra["CROSS"]]
+    rel += [["%s in %s" % (x[0], x[1]), "%s in %s" % (x[2], x[3]), x[4], x[5]] for x in extra["RATIOS"]]
+    rel += [["%d %s in %s" % (x[2], x[0], x[1]), "1 %s in %s scaled with power %d" % (x[0], x[1], x[3]), 1, 0] for x in extra["SCALINGS"]]
     rc, o = vlib.sh("%s units %s %s 2>&1" % (exe, uin, uout), timeout=120)
     if rc != 0:
         c.violation("yaml:units:abort", "UnitConverter::convert failed on a relation of the table (rc=%d): %s" % (rc, o[-300:]), {"relations": rel})
